@@ -100,7 +100,10 @@ def cross_script_section(ctx):
     from fontTools.ttLib import TTFont
     rng = ctx.subrng("cross-script")
     POOL = {"latn": [("A", 0x41), ("V", 0x56)], "cyrl": [("a-cy", 0x430), ("be-cy", 0x431)], "grek": [("alpha", 0x3B1), ("beta", 0x3B2)],
-            "armn": [("ayb-arm", 0x561), ("ben-arm", 0x562)], "geor": [("an-georgian", 0x10D0), ("ban-georgian", 0x10D1)]}
+            "armn": [("ayb-arm", 0x561), ("ben-arm", 0x562)], "geor": [("an-georgian", 0x10D0), ("ban-georgian", 0x10D1)],
+            # OpenType tags shorter than four letters are space-padded ("lao ", "nko " is right-to-left and left out here)
+            "lao ": [("ko-lao", 0xE81), ("khosung-lao", 0xE82)], "vai ": [("e-vai", 0xA500), ("een-vai", 0xA501)]}
+    LANGS = {"latn": "TRK ", "cyrl": "SRB ", "grek": "PGR ", "lao ": "LAO ", "vai ": "VAI "}
     for i in range(ctx.budget(24, 120)):
         tags = rng.sample(list(POOL), rng.randint(3, 5))
         script_of, glyphs = {}, []
@@ -124,6 +127,8 @@ def cross_script_section(ctx):
                 pairs.append(((POOL[t][0][0], POOL[t][1][0]), Fr(-40)))
         rng.shuffle(pairs)
         ls = [("DFLT", "dflt")] + [(t, "dflt") for t in tags]
+        # named language systems for some of the scripts: each must expose what the script's default one does
+        ls += [(t, LANGS[t]) for k, t in enumerate(tags) if t in LANGS and (i + k) % 2 == 0]
         desc = {"glyphs": glyphs, "kerning": dict(pairs), "features": "".join("languagesystem %s %s;\n" % sl for sl in ls)}
         lib = ["ufoLib2", "defcon"][i % 2]
         case = {"font": jsonable(dict(desc, kerning={"%s|%s" % k: v for k, v in desc["kerning"].items()})), "lib": lib,
@@ -144,11 +149,17 @@ def cross_script_section(ctx):
                 if f not in feats:
                     bad = bad or "declared script %s (kerned%s) does not expose the generated %s feature: %r" % (
                         t, "" if any(script_of[a] == script_of[b] == t for (a, b), _ in pairs) else " only across scripts", f, feats)
+        for t, lg in ls:
+            if t != "DFLT" and lg != "dflt":
+                feats = sc.get(t, {}).get(lg)
+                if feats is None or "kern" not in feats or "mark" not in feats:
+                    bad = bad or "declared language system %r/%r does not expose the generated kern and mark features: %r" % (t, lg, feats)
         for (a, b), v in desc["kerning"].items():
             for t in {script_of[a], script_of[b]}:
-                got = lay.pair_adjust(lay.lookups_for(t, {"kern", "dist"}), a, b)
-                if got[0] != v:
-                    bad = bad or "pair (%s, %s) = %s is not applied under script %s (got %r)" % (a, b, v, t, got[:3])
+                for lg in ["dflt"] + [l for tt_, l in ls if tt_ == t and l != "dflt"]:
+                    got = lay.pair_adjust(lay.lookups_for(t, {"kern", "dist"}, lang=lg), a, b)
+                    if got[0] != v:
+                        bad = bad or "pair (%s, %s) = %s is not applied under script %r language %r (got %r)" % (a, b, v, t, lg, got[:3])
         if bad:
             ctx.spec_failure(case, bad)
 
